@@ -64,11 +64,8 @@ func (im0 *im0data) Get(addr uint16) uint8 {
 }
 
 func (im0 *im0data) Set(addr uint16, value uint8) {
-	if addr >= im0.start && addr <= im0.end {
-		// invalid opepration, nothing to do.
-		return
-	}
-	// delegate to base Memory for out of range.
+	// interruption data is not memory: every write goes to the base Memory,
+	// otherwise a return address pushed to [PC, PC+len) would be lost.
 	im0.base.Set(addr, value)
 }
 
